@@ -91,10 +91,10 @@ class C25(Check):
                     tasks = [asyncio.ensure_future(ec.assigned_address(-i)) for i in range(n)]
                     for i, t in enumerate(tasks):
                         t.set_name(f"T{i}")
-                    res = await asyncio.wait_for(asyncio.gather(*tasks), 20)
+                    res = await asyncio.wait_for(asyncio.gather(*tasks), 120)
                     res = list(res)
                 else:
-                    d = await asyncio.wait_for(ec.scan_serial_numbers(), 20)
+                    d = await asyncio.wait_for(ec.scan_serial_numbers(), 120)
                     res = [d.get(100 + i) for i in range(n)]
             finally:
                 ec._sendloop_task.cancel()
